@@ -75,6 +75,19 @@ class Iterable:
             raise EXC[self.script.get("exc", "Exception")]("app failure in close()")
 
 
+class IterNoClose:
+    """an iterator that has no close() at all (map(), itertools.chain(), a hand-written iterator class)"""
+
+    def __init__(self, chunks, script):
+        self._it = Iterable(chunks, script, {"iter_closed": 0}, False)
+
+    def __iter__(self):
+        return self
+
+    def __next__(self):
+        return self._it.__next__()
+
+
 class IterableLen(Iterable):
     def __len__(self):
         return len(self.chunks)
@@ -163,6 +176,8 @@ def make_app(script, counters):
             if hook:
                 hook(0)   # a disconnect "at step 0" strikes just before the hand-over
             return environ["wsgi.file_wrapper"](fobj, 2)
+        if kind == "noclose":
+            return IterNoClose(chunks, script)
         return Iterable(chunks, script, counters, kind == "list")
     return app
 
